@@ -24,10 +24,11 @@ from harness.props.c19_facts import facts  # noqa: F401  (translator entry point
 
 PROP = "C19"
 DRIVER_MODULES = ["PsutilModel.Model.C19Gen", "PsutilModel.Model.C19Dir", "PsutilModel.Spec.C19", "PsutilModel.Spec.C19Cores",
-                  "PsutilModel.Spec.C19Dir"]
+                  "PsutilModel.Spec.C19Dir", "PsutilModel.Spec.C19Boot"]
 NEEDS_EXT = True
 TRUSTED = [
     "C19 redirect layer (harness/props/c19_redirect.py): glob.glob / os.listdir / os.sysconf / os.path.exists and open() as seen by psutil._pslinux / psutil._common are served from a temp root; an 'unreadable' file is an existing file that fails in one of five ways chosen per case: open() raises EACCES or ENXIO, or the open succeeds and read()/iteration raises EIO, ENODATA or ENODEV (a file object handed out by the shim)",
+    "C19 histories (family boot_hist_*): before and after each history the scalar globals and the content of the plain list/dict/set globals of psutil, psutil._pslinux, psutil._common are put back to what they were right after import (BOOT_TIME: None) — the stand-in for 'a fresh interpreter'; state kept inside other objects is not reset; Process.create_time() is driven through a fake <procfs>/<pid>/stat line in the kernel's 52-field format whose only varied field is starttime; times are compared within 2^-50 relative (1.5e-6 s at today's epoch)",
     "C19 number syntax: float()/int() are modelled on optional blanks, optional sign, decimal digits, optional fraction (what the kernel prints); exponents, inf/nan, '_' separators and non-ASCII digits/blanks are outside the model and outside the generators",
     "C19 floats: the model computes exact rationals; the implementation's doubles are accepted within 1e-9 relative (secsleft: +-1 when the exact quotient is within 1e-9 of an integer; cpuinfo-derived MHz: 0.0011 absolute, int() of a double)",
     "C19 kernel formats: /proc/stat and /proc/cpuinfo renderers in Spec/C19.lean are transcriptions of fs/proc/stat.c and arch/x86/kernel/cpu/proc.c (fields psutil reads), the cpulist renderer in Spec/C19Cores.lean of the `%*pbl` bitmap format (Documentation/admin-guide/cputopology.rst: core_cpus_list); none is verified against the kernel",
@@ -40,7 +41,7 @@ ASSUMPTIONS = [
     "which cpuN/online file marks an offline CPU of a policy without frequency files is not fixed by the property: the specification is silent when the policy's position in the sorted list differs from its number",
 ]
 MANIFEST = {
-    "level_text": "Machine-checked Lean 4 proofs over an executable model of the Linux sensors/battery/cpu_freq/cpu_count/cpu_stats/boot_time code for EVERY abstract tree: the hwmon walker equals the declarative per-sensor view and never fails (C19_temperatures_never_fail for every tree, C19_temperatures_refine / C19_missing_reading_skipped, C19_temp_scaling; the coretemp platform glob is outside the specification, its effect characterised in C19_coretemp_as_found), thermal zones influence the result exactly when hwmon lists nothing (C19_fallback_iff, with C19_zones_ignored_when_hwmon_lists / C19_fallback_to_zones), zone thresholds are independent of the set-iteration order for every permutation (C19_zone_thresholds, with a proved counterexample for the code as found: conversions inside the loop), Fahrenheit and back-fill laws (C19_fahrenheit, C19_backfill, with a proved counterexample for the truthiness test), fans per fan (C19_fans_rows_when_returns: whenever the call returns its rows are exactly the determined fans; C19_fans_error_only_on_silent_fan: it can raise only on a listed fan with a readable non-integer reading or an unreadable chip name; C19_fans_raise_iff_as_found as a characterisation; C19_none_when_absent_fans), battery percent/plugged/secsleft/first-battery/None rules (C19_battery_refines and corollaries; without any hypothesis on /sys/class/power_supply for the repaired source: C19_battery_refines_full_repaired, with the counterexample C19_battery_no_dir_counterexample for the source as found = known finding C19-battery-no-power-supply-dir; clause by clause in C19_plugged_rules, C19_alternatives_rules, C19_secsleft_rules, end to end in C19_battery_kernel), cpu_freq kHz->MHz scaling, column means and None for no CPU for both module variants, cpu_count(logical=True) over its three sources (C19_cpu_count_logical_refines) and cpu_stats/boot_time as round trips through kernel-format renderers of /proc/cpuinfo and /proc/stat (text level), boot_time() over HISTORIES of calls is never served from the module global (C19_boot_time_not_cached, counterexample for a caching variant, C19_boot_time_global_kept), thermal-zone and hwmon directories at FILE-NAME level: every trip point the kernel names trip_point_<n>_{type,temp,hyst} (any number of digits) is in the set the walker iterates, the set holds nothing else, and for every iteration order the zone row is the row of the kernel's description (C19_zone_all_trip_points, C19_zone_trip_set, C19_trip_index, C19_zone_dir_refines, C19_zone_dir_critical; C19_hwmon_all_sensor_indices for temp<n>_/fan<n>_ files), battery selection = lexicographic minimum among the names that start with BAT or contain battery in any case, existence and uniqueness (C19_battery_name_rule, C19_battery_selection, C19_first_battery_exists_unique), blanks/newlines around a number or text are not seen (C19_whitespace_insensitive, C19_kernel_value_padded, C19_battery_reads_whitespace, C19_fans_whitespace), sign of seconds-left for negative power figures as a characterisation (C19_secsleft_sign, C19_secsleft_negative_collides), cpu_count(logical=False) = number of distinct sibling lists of the topology files under either file name, for any assignment of any number of CPUs to cores printed in the kernel's cpulist format (C19_cpu_count_cores_topology, C19_cpu_count_cores_kernel; the format is proved injective), else the package sum of a kernel-format /proc/cpuinfo, None when 0 (C19_cpu_count_cores_cpuinfo, C19_cpu_count_cores_none, C19_cpu_count_cores_refines). Tied to the code by translator facts (caught exception classes, placement of the /1000 conversions relative to the trip-point loop, constants, file-name alternatives and their order, name filter, enum values, the trip-point glob / split-join slice / file suffixes / type constants) feeding the proof obligations cfg_good / cfg_names (file names, keys, glob patterns for hwmonN / thermal_zoneN / policyN of any number of digits, line tests; generated strings compared with the model's own byte constants) / cfg_cat (_common.cat catches OSError around open AND read) / cfg_boot_fresh, and by a differential run of the real front ends over redirected trees whose text files are the bytes printed by the Lean renderers.",
+    "level_text": "Machine-checked Lean 4 proofs over an executable model of the Linux sensors/battery/cpu_freq/cpu_count/cpu_stats/boot_time code for EVERY abstract tree: the hwmon walker equals the declarative per-sensor view and never fails (C19_temperatures_never_fail for every tree, C19_temperatures_refine / C19_missing_reading_skipped, C19_temp_scaling; the coretemp platform glob is outside the specification, its effect characterised in C19_coretemp_as_found), thermal zones influence the result exactly when hwmon lists nothing (C19_fallback_iff, with C19_zones_ignored_when_hwmon_lists / C19_fallback_to_zones), zone thresholds are independent of the set-iteration order for every permutation (C19_zone_thresholds, with a proved counterexample for the code as found: conversions inside the loop), Fahrenheit and back-fill laws (C19_fahrenheit, C19_backfill, with a proved counterexample for the truthiness test), fans per fan (C19_fans_rows_when_returns: whenever the call returns its rows are exactly the determined fans; C19_fans_error_only_on_silent_fan: it can raise only on a listed fan with a readable non-integer reading or an unreadable chip name; C19_fans_raise_iff_as_found as a characterisation; C19_none_when_absent_fans), battery percent/plugged/secsleft/first-battery/None rules (C19_battery_refines and corollaries; without any hypothesis on /sys/class/power_supply for the repaired source: C19_battery_refines_full_repaired, with the counterexample C19_battery_no_dir_counterexample for the source as found = known finding C19-battery-no-power-supply-dir; clause by clause in C19_plugged_rules, C19_alternatives_rules, C19_secsleft_rules, end to end in C19_battery_kernel), cpu_freq kHz->MHz scaling, column means and None for no CPU for both module variants, cpu_count(logical=True) over its three sources (C19_cpu_count_logical_refines) and cpu_stats/boot_time as round trips through kernel-format renderers of /proc/cpuinfo and /proc/stat (text level), boot_time() over HISTORIES of calls is never served from the module global (C19_boot_time_not_cached, counterexample for a caching variant, C19_boot_time_global_kept), and over every history of boot_time() / Process.create_time() / cpu_stats() calls in one interpreter while the kernel's btime moves by any amount (one second included) each boot_time() hands back the btime of its own moment (C19_boot_time_mirrors_every_history, C19_boot_time_mirrors_from_any_global; C19_boot_time_rule_iff: a return rule keeps the promise iff it returns the value just read for every pair (remembered, read); C19_boot_time_tolerance_iff: a fluctuation tolerance keeps it iff it is below one second; counterexamples C19_boot_time_one_second_counterexample, C19_create_time_then_one_second_counterexample, C19_boot_time_cached_rule_counterexample) while every successful create_time() of a history is explained by ONE boot time (C19_create_time_stable), thermal-zone and hwmon directories at FILE-NAME level: every trip point the kernel names trip_point_<n>_{type,temp,hyst} (any number of digits) is in the set the walker iterates, the set holds nothing else, and for every iteration order the zone row is the row of the kernel's description (C19_zone_all_trip_points, C19_zone_trip_set, C19_trip_index, C19_zone_dir_refines, C19_zone_dir_critical; C19_hwmon_all_sensor_indices for temp<n>_/fan<n>_ files), battery selection = lexicographic minimum among the names that start with BAT or contain battery in any case, existence and uniqueness (C19_battery_name_rule, C19_battery_selection, C19_first_battery_exists_unique), blanks/newlines around a number or text are not seen (C19_whitespace_insensitive, C19_kernel_value_padded, C19_battery_reads_whitespace, C19_fans_whitespace), sign of seconds-left for negative power figures as a characterisation (C19_secsleft_sign, C19_secsleft_negative_collides), cpu_count(logical=False) = number of distinct sibling lists of the topology files under either file name, for any assignment of any number of CPUs to cores printed in the kernel's cpulist format (C19_cpu_count_cores_topology, C19_cpu_count_cores_kernel; the format is proved injective), else the package sum of a kernel-format /proc/cpuinfo, None when 0 (C19_cpu_count_cores_cpuinfo, C19_cpu_count_cores_none, C19_cpu_count_cores_refines). Tied to the code by translator facts (caught exception classes, placement of the /1000 conversions relative to the trip-point loop, constants, file-name alternatives and their order, name filter, enum values, the trip-point glob / split-join slice / file suffixes / type constants) feeding the proof obligations cfg_good / cfg_names (file names, keys, glob patterns for hwmonN / thermal_zoneN / policyN of any number of digits, line tests; generated strings compared with the model's own byte constants) / cfg_cat (_common.cat catches OSError around open AND read) / cfg_boot_fresh / cfg_boot_hist (every place that names BOOT_TIME, the body of Process.create_time(), the front end psutil.boot_time() a plain delegation), and by a differential run of the real front ends over redirected trees whose text files are the bytes printed by the Lean renderers.",
     "level_note": "Theorems whose docstring starts with SPEC-ONLY (C19_reported_iff, C19_zone_spec_order_free, C19_first_battery, C19_secsleft_rules, C19_secsleft_sign, C19_secsleft_negative_collides, C19_cores_packages, C19_trip_index, C19_battery_name_examples, C19_first_battery_exists_unique) document the specification and do not constrain psutil; several specification functions (percentOf, secsleftOf, pluggedOf, freqList, countLogical) follow the statement clause by clause and therefore resemble the code: those refinement theorems are characterisations of the code against the statement's formulas, the independent parts are zoneThresh, firstBattery, distinctCount/cpuList, tripIndex?, the renderers and mean. Exact-rational theorems (C19_cpu_freq_end_to_end, C19_secsleft) hold of the Rat model; the doubles of the implementation are accepted within the stated tolerances. Trusted: Lean kernel + {propext, Classical.choice, Quot.sound}; the translator; the redirect layer and correspondence harness; Python number syntax restricted to the kernel's notation; doubles vs exact rationals within the stated tolerances.",
     "technique": "Lean 4 proofs (case analysis, list induction, permutation invariance, render->parse round trips of /proc/stat, /proc/cpuinfo and the cpulist format) over a model on abstract sysfs trees + translator-fed proof obligation + differential correspondence through a path-redirect layer with explicit set-order control and exhaustive small sub-domains",
     "design_ref": "DESIGN.md §5 C19",
@@ -142,8 +143,20 @@ def plain_eq(a, b):
     return a == b
 
 
+def close_ulp(x, q):
+    """a time in seconds (float of the implementation) vs the exact rational of the model / specification: a few units in
+    the last place of a double (2^-50 relative: 1.5e-6 s at today's epoch). The general `close` (1e-9 relative) is 1.7 s
+    wide at btime = 1.7e9 and would hide a boot time that is one second off."""
+    if x is None or q is None:
+        return x is None and q is None
+    if isinstance(x, bool) or not isinstance(x, (int, float)) or x != x or x in (float("inf"), float("-inf")):
+        return False
+    e = frac(q)
+    return abs(Fraction(x) - e) <= max(1, abs(e)) * Fraction(1, 2**50)
+
+
 def btime_eq(a, b):
-    return close(a, b)
+    return close_ulp(a, b)
 
 
 # ------------------------------------------------------------------------------ generators
@@ -645,6 +658,122 @@ def gen_boottime_seq(rng):
     return {"fn": "boottime_seq", "family": "boottime_seq", "stats": stats}
 
 
+# ---- seeded round 5: histories of boot_time() / Process.create_time() / cpu_stats() while the kernel's btime moves
+
+BOOT_BASES = [3, 4, 1000, 86400, 1700000000, 1700000000, 2**31 - 3, 2**32 + 5]
+SMALL_DELTAS = [0, 1, -1, 2, -2, 1, -1, 3, -3]
+BIG_DELTAS = [3600, -3600, 86400, -86400, 10**6, 37, -59]
+BOOTHIST_SUBS = ("small_steps", "cacher_then_read", "drift", "big_jumps", "failing_first", "random")
+RAW_NO_BTIME = [hx(b"cpu  1 2 3\n"), hx(b""), hx(b"btime\n"), hx(b"btime soon\n"), None, False]
+
+
+def hist_rec(rng, btime, rich=False):
+    """a kernel record for /proc/stat with the given btime (small numbers: the text is parsed by the Lean interpreter)"""
+    if not rich:
+        return {"rec": {"cpu_total": [1, 2, 3], "cpus": [], "intr": 5, "intr_rest": [], "ctxt": 7, "btime": btime,
+                        "processes": 3, "softirq": 9, "softirq_rest": []}}
+    return {"rec": {"cpu_total": [rng.randrange(10**6) for _ in range(10)],
+                    "cpus": [[rng.randrange(10**6) for _ in range(10)] for _ in range(rng.randrange(0, 3))],
+                    "intr": rng.randrange(2**32), "intr_rest": [rng.randrange(100) for _ in range(rng.randrange(0, 4))],
+                    "ctxt": rng.randrange(2**32), "btime": btime, "processes": rng.randrange(10**6),
+                    "softirq": rng.randrange(2**32), "softirq_rest": [rng.randrange(100) for _ in range(rng.randrange(0, 4))]}}
+
+
+def hist_call(rng, weights=(6, 3, 1)):
+    c = rng.choices(["boot_time", "create_time", "cpu_stats"], weights=weights)[0]
+    st = {"call": c}
+    if c == "create_time":
+        st["mode"] = rng.choice(["plat", "front"])
+        st["start"] = rng.choice([0, 1, 250, 123456, rng.randrange(0, 10**9)])
+    return st
+
+
+def gen_boothist(rng, sub=None):
+    """one interpreter, module state fresh; btime moves between the calls by deltas drawn per sub-family:
+    small_steps (0, +-1, +-2, +-3 per step), cacher_then_read (boot_time() or create_time() — platform object or a new
+    psutil.Process — makes psutil remember the boot time, then small steps and boot_time() again), drift (+-1 per step
+    in one direction, so that the distance to the FIRST value grows past any tolerance while consecutive values stay
+    close), big_jumps (hours/days mixed with +-1), failing_first (the first calls fail: no btime line / unreadable file —
+    nothing is remembered yet), random (anything, raw files included)"""
+    sub = sub or rng.choice(BOOTHIST_SUBS)
+    base = rng.choice(BOOT_BASES + [rng.randrange(3, 2**31)])
+    rich = rng.random() < 0.25
+    steps = []
+
+    def add(btime, call=None, stat=None):
+        st = dict(call or hist_call(rng))
+        st["stat"] = stat if stat is not None or btime is None else hist_rec(rng, max(0, btime), rich)
+        steps.append(st)
+    cur = base
+    if sub == "small_steps":
+        for _ in range(rng.randrange(2, 7)):
+            add(cur)
+            cur += rng.choice(SMALL_DELTAS)
+    elif sub == "cacher_then_read":
+        first = rng.choice([{"call": "boot_time"}, {"call": "create_time", "mode": "plat", "start": rng.randrange(0, 10**6)},
+                            {"call": "create_time", "mode": "front", "start": rng.randrange(0, 10**6)}])
+        add(cur, first)
+        for _ in range(rng.randrange(1, 4)):
+            cur += rng.choice([1, -1, 1, -1, 2, -2, 0])
+            add(cur, {"call": "boot_time"} if rng.random() < 0.8 else None)
+    elif sub == "drift":
+        d = rng.choice([1, -1])
+        for i in range(rng.randrange(3, 7)):
+            add(cur, {"call": "boot_time"} if i == 0 or rng.random() < 0.7 else None)
+            cur += d
+        cur -= 2 * d                                     # and one step back: close to the previous, far from the first
+        add(cur, {"call": "boot_time"})
+    elif sub == "big_jumps":
+        for _ in range(rng.randrange(2, 6)):
+            add(cur)
+            cur += rng.choice(BIG_DELTAS + [1, -1])
+    elif sub == "failing_first":
+        for _ in range(rng.randrange(1, 3)):
+            st = hist_call(rng, (8, 2, 2))
+            raw = rng.choice(RAW_NO_BTIME)
+            if st["call"] == "create_time" and not isinstance(raw, str):
+                raw = RAW_NO_BTIME[0]                    # create_time steps keep a readable file (wrap_exceptions is C01's)
+            st["stat"] = raw
+            steps.append(st)
+        for _ in range(rng.randrange(2, 5)):
+            add(cur)
+            cur += rng.choice([1, -1, 0, 2])
+    else:
+        for _ in range(rng.randrange(1, 8)):
+            if rng.random() < 0.15:
+                st = hist_call(rng)
+                raw = gen_stat(rng, 0, allow_raw=True)
+                if st["call"] == "create_time" and not isinstance(raw, (str, dict)):
+                    raw = RAW_NO_BTIME[0]
+                st["stat"] = raw
+                steps.append(st)
+            else:
+                add(cur)
+            cur = rng.choice([cur + rng.choice(SMALL_DELTAS), cur + rng.choice(BIG_DELTAS), rng.randrange(0, 2**31)])
+    case = {"fn": "boothist", "family": "boot_hist_" + sub, "steps": steps}
+    if rng.random() < 0.2 and any(st["stat"] is False for st in steps):
+        case["unread"] = rng.choice(c19_redirect.UNREAD_MODES[1:])
+    return case
+
+
+def exhaustive_boothist(radius, base=1700000000):
+    """every 3-step history: who makes psutil remember the boot time (boot_time(), create_time() on a platform object,
+    a new psutil.Process) x btime of step 2 and of step 3 within `radius` seconds of the first x the call made at
+    step 2 and at step 3 (boot_time() or create_time())"""
+    firsts = [{"call": "boot_time"}, {"call": "create_time", "mode": "plat", "start": 250},
+              {"call": "create_time", "mode": "front", "start": 250}]
+    later = [{"call": "boot_time"}, {"call": "create_time", "mode": "plat", "start": 777}]
+    rng = None
+    for f in firsts:
+        for d1 in range(-radius, radius + 1):
+            for d2 in range(-radius, radius + 1):
+                for c2 in later:
+                    for c3 in later:
+                        steps = [dict(f, stat=hist_rec(rng, base)), dict(c2, stat=hist_rec(rng, base + d1)),
+                                 dict(c3, stat=hist_rec(rng, base + d2))]
+                        yield {"fn": "boothist", "family": "exhaustive_boot_hist", "steps": steps}
+
+
 # how an 'unreadable' file fails (one mode per case, c19_redirect.UNREAD_MODES): at open() with EACCES / ENXIO, or at
 # read() with EIO / ENODATA / ENODEV (the open succeeds) — the model knows ONE unreadable state (fact: _common.cat
 # catches OSError around open AND read; the walkers catch OSError), so all five must behave alike
@@ -750,8 +879,11 @@ def driver_chips(chips):
     return [{"nested": bool(c.get("nested")), "files": chip_files(c)} for c in chips]
 
 
-def driver_line(case, orders=None):
+def driver_line(case, orders=None, io=None):
     fn = case["fn"]
+    if fn == "boothist":
+        return {"op": "boothist", "ticks": (io or {}).get("ticks", 100),
+                "steps": [{"stat": st["stat"], "call": st["call"], "start": st.get("start", 0)} for st in case["steps"]]}
     if fn == "temps":
         zones = []
         for z, o in zip(case["zones"], orders):
@@ -793,6 +925,9 @@ def render_requests(case):
     for i, st in enumerate(case.get("stats", [])):
         if isinstance(st, dict):
             out.append(("stats%d" % i, {"op": "render", "what": "stat", "rec": st["rec"]}))
+    for i, st in enumerate(case.get("steps", [])):
+        if isinstance(st.get("stat"), dict):
+            out.append(("hstat%d" % i, {"op": "render", "what": "stat", "rec": st["stat"]["rec"]}))
     return out
 
 
@@ -804,6 +939,7 @@ class Runner:
         self.ctx = ctx
         self.impl = c19_redirect.Impl(ctx.psutil)
         self.driver_lines = 0
+        self.render_cache = {}
 
     def close(self):
         self.impl.close()
@@ -815,12 +951,23 @@ class Runner:
                 reqs.append((i, key, line))
         rendered = [dict() for _ in cases]
         if reqs:
-            outs = self.ctx.driver().batch([r[2] for r in reqs])
-            self.driver_lines += len(reqs)
-            for (i, key, _), o in zip(reqs, outs):
-                if "ok" not in o:
-                    raise RuntimeError("driver could not render %s: %s" % (key, o))
-                rendered[i][key] = o["ok"] if isinstance(o["ok"], list) else bytes.fromhex(o["ok"])
+            # identical requests (the histories of one sweep share a handful of records) are rendered once
+            keys = [json.dumps(r[2], sort_keys=True) for r in reqs]
+            todo = {}
+            for k, r in zip(keys, reqs):
+                if k not in self.render_cache and k not in todo:
+                    todo[k] = r[2]
+            if todo:
+                outs = self.ctx.driver().batch(list(todo.values()))
+                self.driver_lines += len(todo)
+                for k, o in zip(todo, outs):
+                    if "ok" not in o:
+                        raise RuntimeError("driver could not render %s: %s" % (k[:200], o))
+                    self.render_cache[k] = o["ok"] if isinstance(o["ok"], list) else bytes.fromhex(o["ok"])
+            for (i, key, _), k in zip(reqs, keys):
+                rendered[i][key] = self.render_cache[k]
+            if len(self.render_cache) > 20000:
+                self.render_cache.clear()
         return rendered
 
     def file_bytes(self, case, key, rendered):
@@ -853,6 +1000,10 @@ class Runner:
             sts = [rendered["stats%d" % i] if isinstance(st, dict) else c19_redirect.fs_of(st)
                    for i, st in enumerate(case["stats"])]
             return I.run_boottime_seq(sts, um)
+        if fn == "boothist":
+            steps = [dict(st, stat=rendered["hstat%d" % i] if isinstance(st["stat"], dict) else c19_redirect.fs_of(st["stat"]))
+                     for i, st in enumerate(case["steps"])]
+            return I.run_boothist(steps, um)
         raise ValueError(fn)
 
     def run(self, cases, impl_outs=None):
@@ -860,7 +1011,7 @@ class Runner:
         rendered = self.render_all(cases)
         if impl_outs is None:
             impl_outs = [self.run_impl(c, r) for c, r in zip(cases, rendered)]
-        lines = [driver_line(c, o.get("orders") if c["fn"] == "temps" else None) for c, o in zip(cases, impl_outs)]
+        lines = [driver_line(c, o.get("orders") if c["fn"] == "temps" else None, o) for c, o in zip(cases, impl_outs)]
         outs = self.ctx.driver().batch(lines) if lines else []
         self.driver_lines += len(lines)
         res = []
@@ -888,6 +1039,27 @@ def judge(case, impl, model, spec):
             and all(res_match(a, b, btime_eq) for a, b in zip(impl["calls"], model["calls"]))
         ok_s = len(impl["calls"]) == len(spec["calls"]) \
             and all(res_match(a, b, btime_eq) for a, b in zip(impl["calls"], spec["calls"]))
+        return ok_s, ok_m
+    if fn == "boothist":
+        def step_eq(st):
+            return plain_eq if st["call"] == "cpu_stats" else btime_eq
+        n = len(case["steps"])
+        ok_m = len(impl["outs"]) == n == len(model["outs"]) and close_ulp(impl["global"], model["global"]) \
+            and all(res_match(a, b, step_eq(st)) for st, a, b in zip(case["steps"], impl["outs"], model["outs"]))
+        ok_s = len(impl["outs"]) == n == len(spec["outs"]) \
+            and all(res_match(a, b, step_eq(st)) for st, a, b in zip(case["steps"], impl["outs"], spec["outs"]))
+        # Spec.StableCreate, checked on the implementation's own answers (no model involved): processes with the same
+        # starttime get the same creation time throughout the history, whatever btime did in between
+        seen = {}
+        for st, a in zip(case["steps"], impl["outs"]):
+            if st["call"] == "create_time" and a.get("kind") == "ok":
+                v = a["value"]
+                if not isinstance(v, (int, float)) or isinstance(v, bool) or v != v:
+                    ok_s = False
+                    continue
+                w = seen.setdefault(st["start"], v)
+                if abs(w - v) > max(1.0, abs(w)) * 2.0 ** -50:
+                    ok_s = False
         return ok_s, ok_m
     eq = {"fans": fans_eq, "battery": None, "cpufreq": None, "cpucount": plain_eq, "cpustats": plain_eq,
           "boottime": btime_eq}[fn]
@@ -1016,6 +1188,8 @@ def generic_features(case, impl):
         if any(c.get("kind") == "exc" for c in impl["calls"]):
             f.add("a_call_failed")
         return f
+    if case["fn"] == "boothist":
+        return f | boothist_features(case, impl)
     if case["fn"] == "fans" and any(c.get("dirn", 0) >= 10 for c in case.get("chips", [])):
         f.add("hwmon_dir_index_ge_10")
     if impl.get("kind") == "exc":
@@ -1081,6 +1255,50 @@ def generic_features(case, impl):
                 ids = [b["physical_id"] for b in case["cpuinfo"]["blocks"]]
                 if len(set(ids)) > 1:
                     f.add("cores_multi_package")
+    return f
+
+
+def _step_btime(st):
+    """the btime the kernel shows at this step (None: no such line / unreadable / raw text)"""
+    v = st.get("stat")
+    return v["rec"]["btime"] if isinstance(v, dict) else None
+
+
+def boothist_features(case, impl):
+    """clause features of a history: who made psutil remember the boot time, how far btime is from the remembered value
+    when boot_time() is called again, consecutive steps of exactly one second, drift"""
+    f = set()
+    remembered = None
+    prev = None
+    for st, out in zip(case["steps"], impl["outs"]):
+        b = _step_btime(st)
+        ok = out.get("kind") == "ok"
+        if not ok:
+            f.add("a_call_failed")
+            if remembered is None:
+                f.add("call_failed_before_anything_remembered")
+        if st["call"] == "create_time":
+            f.add("create_time_" + st.get("mode", "plat"))
+        if st["call"] == "cpu_stats":
+            f.add("cpu_stats_interleaved")
+        if b is not None and prev is not None and abs(b - prev) == 1:
+            f.add("btime_step_of_one_second")
+        if b is not None and prev is not None and abs(b - prev) >= 3600:
+            f.add("btime_step_of_an_hour_or_more")
+        if st["call"] == "boot_time" and b is not None and remembered is not None:
+            d = abs(b - remembered)
+            f.add("boot_time_reread_%s_from_remembered" % ("same" if d == 0 else "1s" if d == 1 else "2s" if d == 2 else "far"))
+            if prev is not None and abs(b - prev) <= 1 and d >= 2:
+                f.add("boot_time_reread_close_to_previous_far_from_first")
+        if st["call"] in ("boot_time", "create_time") and ok and remembered is None and b is not None:
+            remembered = b
+            f.add("remembered_by_" + st["call"] + ("_" + st.get("mode", "plat") if st["call"] == "create_time" else ""))
+        if b is not None:
+            prev = b
+            if b == 0:
+                f.add("btime_zero")
+            if b >= 2**31:
+                f.add("btime_beyond_2038")
     return f
 
 
@@ -1218,6 +1436,15 @@ CORPUS = [
     # boot_time() twice, the clock stepped in between (btime 1000 → 1010): the second call must say 1010
     {"fn": "boottime_seq", "family": "corpus_btime_history",
      "stats": [hx(b"cpu  1 2 3\nbtime 1000\n"), hx(b"cpu  1 2 3\nbtime 1010\n")]},
+    # a new psutil.Process at btime T (its constructor asks for the creation time: psutil remembers T); the clock is
+    # stepped by one second; boot_time() must say T+1.  Then T, T+2, T+1 through boot_time() alone.
+    {"fn": "boothist", "family": "corpus_boot_hist_one_second",
+     "steps": [{"call": "create_time", "mode": "front", "start": 250, "stat": hist_rec(None, 1700000000)},
+               {"call": "boot_time", "stat": hist_rec(None, 1700000001)}]},
+    {"fn": "boothist", "family": "corpus_boot_hist_drift",
+     "steps": [{"call": "boot_time", "stat": hist_rec(None, 1700000000)},
+               {"call": "boot_time", "stat": hist_rec(None, 1700000002)},
+               {"call": "boot_time", "stat": hist_rec(None, 1700000001)}]},
     # hwmon10 next to hwmon2 (glob patterns must match any number of digits)
     {"fn": "temps", "family": "corpus_hwmon10", "fahrenheit": False, "coretemp": 0, "zones": [],
      "chips": [{"nested": False, "dirn": 2, "name": hx(b"nvme\n"), "fans": [],
@@ -1335,7 +1562,10 @@ def correspond(ctx, res):
         res.rule = ("abstract sysfs/procfs trees from clause-directed families (PRNG from VERIF_SEED) for the 8 "
                     "functions, plus exhaustive sweeps (every iteration order of ≤3 trip points over a 5-letter "
                     "alphabet; every presence pattern of the 8 battery value files × mains × status; every "
-                    "assignment of ≤4 CPUs to cores under both topology file names), plus zone "
+                    "assignment of ≤4 CPUs to cores under both topology file names; every 3-step history of boot_time() / "
+                    "create_time() calls with btime within 2 s of the first value), histories of boot_time() / "
+                    "Process.create_time() / cpu_stats() in an interpreter with fresh module state while btime moves by "
+                    "0, ±1, ±2, ±3 s, hours, or drifts (family boot_hist_*), plus zone "
                     "cases re-run under other PYTHONHASHSEED values; non-trivial = the case exercises a named "
                     "clause feature (missing/unreadable/non-numeric file, fallback, nesting, exception, None "
                     "result, UNKNOWN/UNLIMITED, variant, …); distinct = distinct trees")
@@ -1359,13 +1589,17 @@ def correspond(ctx, res):
         # round 3: hwmonN / thermal_zoneN with N >= 10, read()-time failures, boot_time() histories
         for k in range(ctx.n(160, 5000)):
             cases.append(gen_round3(ctx.rng, k))
+        # seeded round 5: histories of boot_time() / create_time() / cpu_stats() over moving btime (small deltas included)
+        for k in range(ctx.n(180, 6000)):
+            cases.append(gen_boothist(ctx.rng, BOOTHIST_SUBS[k % len(BOOTHIST_SUBS)]))
         quick = ctx.tier == "quick"
+        ex_h = list(exhaustive_boothist(2 if quick else 3))
         ex_z = [zone_case_with_order(t) for t in exhaustive_zone_orders(3 if quick else 4)]
         ex_b = list(exhaustive_battery(quick))
         ex_t = list(exhaustive_topology(4 if quick else 5))
         res.extra["native_cpufreq_variant"] = "sysfs" if runner.impl.native_variant else "cpuinfo"
         CH = 3000
-        allc = cases + ex_z + ex_b + ex_t
+        allc = cases + ex_z + ex_b + ex_t + ex_h
         for a in range(0, len(allc), CH):
             for c, io, mo, sp in runner.run(allc[a:a + CH]):
                 record(res, c, io, mo, sp, c.get("family", "gen"))
@@ -1373,7 +1607,9 @@ def correspond(ctx, res):
                           "critical with junk temp} (high/critical unique), all %d battery presence patterns "
                           "(8 value files x mains x status), all %d assignments of <=%d logical CPUs to cores x "
                           "{core_cpus_list, thread_siblings_list} in the kernel's cpulist format; the random families "
-                          "are samples" % (len(ex_z), 3 if quick else 4, len(ex_b), len(ex_t), 4 if quick else 5))
+                          "are samples; all %d three-step histories {boot_time(), create_time() on a platform object, new psutil.Process} "
+                          "first x btime of steps 2 and 3 within %d s of the first x {boot_time(), create_time()} at steps 2, 3"
+                          % (len(ex_z), 3 if quick else 4, len(ex_b), len(ex_t), 4 if quick else 5, len(ex_h), 2 if quick else 3))
         res.extra["other_variant_reached"] = (not runner.impl.native_variant) in runner.impl.variants
         # other hash seeds
         zone_cases = [c for c in cases if c["fn"] == "temps" and c["zones"]][: (40 if quick else 400)]
@@ -1396,6 +1632,8 @@ def search(ctx, res, broken):
         directed += [gen_battery(ctx.rng, f) for f in ("tte", "negative", "names") for _ in range(40)]
         directed += [gen_temps(ctx.rng, f) for f in ("many_trips", "wide_index") for _ in range(20)]
         directed += [gen_round3(ctx.rng, k) for k in range(240)]
+        directed += list(exhaustive_boothist(2))
+        directed += [gen_boothist(ctx.rng, BOOTHIST_SUBS[k % len(BOOTHIST_SUBS)]) for k in range(300)]
         directed += [gen_cpucount(ctx.rng, f) for f in ("kernel_topology", "packages", "topology") for _ in range(40)]
         directed += [gen_case(ctx.rng, i) for i in range(ctx.n(300, 3000))]
         for c, io, mo, sp in runner.run(directed):
@@ -1422,6 +1660,22 @@ def _shrink_candidates(case):
     for key in ("chips", "zones"):
         if any("dirn" in e for e in case.get(key, []) if isinstance(e, dict)):
             yield dict(case, **{key: [{k: v for k, v in e.items() if k != "dirn"} for e in case[key]]})
+    if fn == "boothist":
+        steps = case["steps"]
+        for i in range(len(steps)):
+            if len(steps) > 1:
+                yield dict(case, steps=steps[:i] + steps[i + 1:])
+        for i, st in enumerate(steps):
+            if st["call"] == "cpu_stats":
+                yield dict(case, steps=steps[:i] + [dict(st, call="boot_time")] + steps[i + 1:])
+            if st["call"] == "create_time" and st.get("mode") == "front":
+                yield dict(case, steps=steps[:i] + [dict(st, mode="plat")] + steps[i + 1:])
+            if st["call"] == "create_time" and st.get("start"):
+                yield dict(case, steps=steps[:i] + [dict(st, start=0)] + steps[i + 1:])
+            if isinstance(st.get("stat"), dict):
+                plain = hist_rec(None, st["stat"]["rec"]["btime"])
+                if plain != st["stat"]:
+                    yield dict(case, steps=steps[:i] + [dict(st, stat=plain)] + steps[i + 1:])
     if fn == "boottime_seq":
         for i in range(len(case["stats"])):
             if len(case["stats"]) > 1:
